@@ -335,12 +335,10 @@ theorem bufSStepK_ok (fz : Bool) (b : BufferSectionSyntaxParser.Self) (c : Dedup
                   R.ok (({ buf := b.buf ++ t3.bytes, state := BufferSectionState.Complete } : BufferSectionSyntaxParser.Self),
                     [BufferSectionSyntaxParser.Call.«section» t5 t7 (Slice.ofVec (b.buf ++ t3.bytes))])
             else R.ok ({ buf := b.buf ++ d.bytes, state := BufferSectionState.Buffering nr }, [])) = R.ok r) := by
-        by_cases hgt : d.len > n
-        · simp only [hgt, decide_true, if_true, R.ok_bind] at e
-          exact ⟨0, e⟩
-        · have h2 : d.len ≤ n := by omega
-          simp only [hgt, decide_false, Bool.false_eq_true, if_false, subR_ok n d.len h2, R.ok_bind] at e
-          exact ⟨n - d.len, e⟩
+        -- `if len > remaining { 0 } else { remaining - len }`, `saturating_sub`, … : however it is spelled
+        -- (`newRem1-3`), what follows only needs SOME new remaining count
+        try simp only [newRem1, newRem2, newRem3, R.ok_bind] at e
+        exact ⟨n - d.len, e⟩
       obtain ⟨nr, e⟩ := hsplit
       split at e
       · cases h1 : d.upto n with
